@@ -12,9 +12,9 @@ from harness import engine as E
 from harness import pipe_common as PC
 
 PID = 'C16'
-BASE = {'X': 1, 'Y': 2, 'SP': 3, 'COMMA': 4, 'QT': 5, 'TAB': 6, 'BAR': 7, 'NL': 8, 'DASH': 9, 'Tokens': '<- VWTokens', 'NSCount': 2, 'StripWholeLine': 'FALSE'}
+BASE = {'X': 1, 'Y': 2, 'SP': 3, 'COMMA': 4, 'QT': 5, 'TAB': 6, 'BAR': 7, 'NL': 8, 'DASH': 9, 'ZED': 10, 'Tokens': '<- VWTokens', 'NSCount': 2, 'StripWholeLine': 'FALSE'}
 INVS = ['RoundTripCSV', 'RoundTripTSV', 'ArityExact', 'VWFieldsInColumns']
-CHARMAPS = [{1: 'x', 2: 'y'}, {1: 'é', 2: 'ñ'}, {1: '0', 2: '1'}, {1: 'A', 2: "'"}]
+CHARMAPS = [{1: 'x', 2: 'y', 10: 'z'}, {1: 'é', 2: 'ñ', 10: '\u3000'}, {1: '0', 2: '1', 10: '\u00a0'}, {1: 'A', 2: "'", 10: '\t'}, {1: 'x', 2: 'y', 10: '\u2003'}, {1: 'q', 2: 'w', 10: ':'}]
 FIXED = {3: ' ', 4: ',', 5: '"', 6: '\t', 7: '|', 8: '\n', 9: '-'}
 
 
@@ -67,7 +67,7 @@ def main():
         fmt = cases[0][0]
         cm = CHARMAPS[0]
         jobs = []
-        chunk = 3000
+        chunk = 3000 if fmt != 'vw' else max(200, len(cases) // 12)
         meta = []
         for i in range(0, len(cases), chunk):
             cmi = CHARMAPS[(i // chunk + seed) % len(CHARMAPS)] if i else cm
